@@ -3,4 +3,5 @@ import LJT.Props.C20
 import LJT.Props.C13
 import LJT.Props.C16
 import LJT.Props.C02
+import LJT.Props.C10
 import LJT.Ops.C19
